@@ -15,11 +15,30 @@ Qed.
 Lemma opt_gtab_eqb_true a b : opt_eqb gtab_eqb a b = true -> a = b.
 Proof. apply (opt_eqb_spec gtab_eqb gtab_eqb_true). Qed.
 
+Lemma out_eqb_true {tab V} (et : tab -> tab -> bool) (ev : V -> V -> bool) :
+  (forall x y, et x y = true -> x = y) -> (forall x y, ev x y = true -> x = y) ->
+  forall a b, out_eqb et ev a b = true -> a = b.
+Proof.
+  intros Ht Hv a b. destruct a, b; cbn; try discriminate; intro H.
+  - reflexivity.
+  - f_equal. apply Ht. exact H.
+  - f_equal. apply Hv. exact H.
+Qed.
+
+Lemma gview_eqb_true a b : gview_eqb a b = true -> a = b.
+Proof.
+  destruct a as [i p|r], b as [i' p'|r']; cbn; try discriminate; intro H.
+  - apply andb_true_iff in H. destruct H as [H1 H2].
+    apply (list_eqb_spec Z.eqb Z.eqb_eq) in H1. apply (list_eqb_spec Z.eqb Z.eqb_eq) in H2. subst. reflexivity.
+  - apply (opt_eqb_spec _ (list_eqb_spec Z.eqb Z.eqb_eq)) in H. subst. reflexivity.
+Qed.
+
 Lemma gobs_eqb_true a b : gobs_eqb a b = true -> a = b.
 Proof.
   destruct a as [t r|k], b as [t' r'|k']; cbn; try discriminate.
   - intro H. apply andb_true_iff in H. destruct H as [H1 H2].
-    apply gtab_eqb_true in H1. apply opt_gtab_eqb_true in H2. subst. reflexivity.
+    apply gtab_eqb_true in H1. apply (out_eqb_true gtab_eqb gview_eqb (fun x y E => proj1 (gtab_eqb_true x y) E) gview_eqb_true) in H2.
+    subst. reflexivity.
   - intro H. apply Z.eqb_eq in H. subst. reflexivity.
 Qed.
 
@@ -36,7 +55,9 @@ Lemma pobs_eqb_true a b : pobs_eqb a b = true -> a = b.
 Proof.
   destruct a as [t r|k], b as [t' r'|k']; cbn; try discriminate.
   - intro H. apply andb_true_iff in H. destruct H as [H1 H2].
-    apply ptab_eqb_true in H1. apply (opt_eqb_spec ptab_eqb ptab_eqb_true) in H2. subst. reflexivity.
+    apply ptab_eqb_true in H1.
+    apply (out_eqb_true ptab_eqb (fun _ _ : unit => true)) in H2;
+      [subst; reflexivity|intros x y E; apply ptab_eqb_true; exact E|intros [] [] _; reflexivity].
   - intro H. apply Z.eqb_eq in H. subst. reflexivity.
 Qed.
 
